@@ -89,7 +89,7 @@ def render(name, f):
     params = f["params"]
     ret = r_expr(f["ret"])
     if f.get("rfilter"):
-        ret = "R(_space, %r, %s)" % (name, ret)
+        ret = "R(_space, %r, %s%s)" % (name, "".join(p + ", " for p, _ in params), ret)
     if f["style"] == "lambda":
         if f.get("noprobe"):
             return "lambda %s: %s" % (r_params(params), ret)
@@ -182,6 +182,12 @@ def render_space_formula(f):
 # --------------------------------------------------------------------------
 # evaluator
 
+def _freeze(a):
+    if isinstance(a, list):
+        return tuple(_freeze(x) for x in a)
+    return a
+
+
 class EvalRaise(Exception):
     """An exception the real formula would raise; .cls is the class name."""
     def __init__(self, cls, msg="", catchable=True):
@@ -237,7 +243,9 @@ class Evaluator:
         self.counts = {}                # element -> number of executions (entry probe)
         self.fault_occ = {}
         self.last_stack = None          # stack snapshot at the innermost raise
-        self.last_lines = None
+        self.last_exc = None
+        self.lines = []                 # current source line of each executing frame (parallel to stack)
+        self.handled = 0
         self.load_inputs()
 
     # ---- instances -------------------------------------------------------
@@ -373,7 +381,7 @@ class Evaluator:
 
     # ---- probe / faults --------------------------------------------------
     def probe(self, inst, name, pt, args):
-        site = (inst.path(), name, pt, tuple(args))
+        site = (inst.path(), name, pt, tuple(_freeze(a) for a in args))
         self.log.append(site)
         if pt == 0:
             el = (site[0], name, site[3])
@@ -381,7 +389,6 @@ class Evaluator:
         if self.plan is not None:
             exc = self.plan.check(site)
             if exc:
-                self.last_stack = list(self.stack)
                 raise EvalRaise(exc, "injected", catchable=exc not in ("KeyboardInterrupt",))
 
     # ---- element evaluation ----------------------------------------------
@@ -441,25 +448,32 @@ class Evaluator:
                     self.edges.setdefault(caller, set()).add(el)
                 return self.memo[el]
         if self.maxdepth is not None and len(self.stack) > self.maxdepth:
-            self.last_stack = list(self.stack)
-            raise EvalRaise("DeepReferenceError", "depth")
+            ex = EvalRaise("DeepReferenceError", "depth")
+            ex.stack = self.snapshot()
+            ex.noline = True
+            raise ex
         self.stack.append((el, c.is_cached))
+        self.lines.append(1)
         try:
             if f is None:
                 val = None
             else:
-                val = self.run_formula(inst, c.name, f, key)
+                val = self.run_formula(inst, getattr(c, "pname", c.name), f, key)
             if c.is_cached:
                 if val is None and not self.allow_none(inst, c):
-                    self.last_stack = [s for s in self.stack]
-                    self.last_none = True
-                    raise EvalRaise("NoneReturnedError", "none")
-        except BaseException:
+                    ex = EvalRaise("NoneReturnedError", "none")
+                    ex.noline = True
+                    raise ex
+        except BaseException as ex:
+            if isinstance(ex, EvalRaise) and getattr(ex, "stack", None) is None:
+                ex.stack = self.snapshot()
             self.stack.pop()
+            self.lines.pop()
             self.edges.pop(el, None)
             self.attrreads.pop(el, None)
             raise
         self.stack.pop()
+        self.lines.pop()
         caller = self.nearest_cached()
         if c.is_cached:
             self.memo[el] = val
@@ -478,31 +492,39 @@ class Evaluator:
 
     def run_formula(self, inst, name, f, key):
         env = {p: v for (p, _), v in zip(f["params"], key)}
+        lm = line_map(name, f)
         if not f.get("noprobe"):
+            self.lines[-1] = lm["probe"][0]
             self.probe(inst, name, 0, key)
         pt = 0
         for i, let in enumerate(f.get("lets", []) if f["style"] == "def" else []):
             pt += 1
+            self.lines[-1] = lm["let"][i]
             if let[0] == "try":
                 _, var, e, h = let
                 try:
-                    self.cur_line = ("let", i)
                     env[var] = self.ev(inst, e, env)
                 except EvalRaise as ex:
                     if not ex.catchable:
                         raise
-                    self.handled = getattr(self, "handled", 0) + 1
+                    self.handled += 1
+                    self.lines[-1] = lm["let_handler_%d" % i]
                     env[var] = self.ev(inst, h, env)
             else:
                 var, e = let
                 env[var] = self.ev(inst, e, env)
             if not f.get("noprobe"):
+                self.lines[-1] = lm["probe"][pt]
                 self.probe(inst, name, pt, key)
+        self.lines[-1] = lm["ret"]
         val = self.ev(inst, f["ret"], env)
         if f.get("rfilter") and self.plan is not None:
             if self.plan.check_none((inst.path(), name, tuple(key))):
                 val = None
         return val
+
+    def snapshot(self):
+        return [(el, ln) for (el, cached), ln in zip(self.stack, self.lines)]
 
     def get_item(self, inst, args, kwargs=None):
         """inst[args] / inst(args): create or fetch the ItemSpace."""
@@ -524,6 +546,7 @@ class Evaluator:
         if self.maxdepth is not None and len(self.stack) > self.maxdepth:
             raise EvalRaise("DeepReferenceError", "depth")
         self.stack.append((el, True))
+        self.lines.append(1)
         try:
             env = {p: v for (p, _), v in zip(sf["params"], key)}
             if sf.get("probe"):
@@ -541,11 +564,15 @@ class Evaluator:
                     base = self.m.space(ret["base"])
                     if base is None:
                         raise EvalRaise("AttributeError", "no base")
-        except BaseException:
+        except BaseException as ex:
+            if isinstance(ex, EvalRaise) and getattr(ex, "stack", None) is None:
+                ex.stack = self.snapshot()
             self.stack.pop()
+            self.lines.pop()
             self.edges.pop(el, None)
             raise
         self.stack.pop()
+        self.lines.pop()
         args_od = OrderedDict((p, v) for (p, _), v in zip(sf["params"], key))
         it = Inst(base, parent=inst, args=args_od, xrefs=xrefs, key=key)
         it.root = it
@@ -585,8 +612,10 @@ class Evaluator:
             for v in (a, b):
                 if isinstance(v, tuple) and v and v[0] in ("object", "fn"):
                     raise EvalUnknown("comparison with an object")
+            if e[1] == "==":
+                return a == b            # equality never raises for the values of this grammar
             self._nums(a, b)
-            return {"<": a < b, "<=": a <= b, "==": a == b, ">": a > b}[e[1]]
+            return {"<": a < b, "<=": a <= b, ">": a > b}[e[1]]
         if k == "if":
             return self.ev(inst, e[2], env) if self.ev(inst, e[1], env) else self.ev(inst, e[3], env)
         if k == "bi":
@@ -771,7 +800,9 @@ class Evaluator:
         Returns ("val", v) or ("exc", class name).
         """
         self.stack = []
+        self.lines = []
         self.last_stack = None
+        self.last_exc = None
         try:
             inst = self.resolve_inst(space_path)
             dc = rm.derived_cells(inst.base).get(cname)
@@ -781,6 +812,9 @@ class Evaluator:
             return ("val", v)
         except EvalRaise as ex:
             self.stack = []
+            self.lines = []
+            self.last_exc = ex
+            self.last_stack = getattr(ex, "stack", None)
             return ("exc", ex.cls)
         except EvalUnknown:
             self.stack = []
